@@ -226,7 +226,17 @@ fn resynth() -> Result<(), ()> {
                 Some(p) => p.clone(),
                 None => PathBuf::new(),
             };
-            out.push(p.file_stem().unwrap());
+            let stem = match p.file_stem() {
+                Some(stem) => stem,
+                None => {
+                    print!("{}: ", p.display());
+                    error!(stdout, "error");
+                    println!(": not a file name");
+                    ret = Err(());
+                    continue;
+                }
+            };
+            out.push(stem);
             out.set_extension("pcap");
             Cow::Owned(out)
         };
